@@ -188,6 +188,36 @@ pub fn record(a: &Args) -> Report {
         }
       }
     }
+    // every field-element position overwritten with p-1 (canonical), p, p+1, 2^129, high limb
+    if *which != "pk" && *which != "proof" {
+      let (s0, s1) = match *which {
+        "sharks" => (0usize, n),
+        "adss" => layout(b).map(|l| (l.s.0, l.s.1)).unwrap_or((0, 0)),
+        _ => {
+          // message: len ct | ct | len share | share...
+          let h2 = 4 + u32::from_le_bytes([b[0], b[1], b[2], b[3]]) as usize;
+          layout(&b[h2 + 4..]).map(|l| (h2 + 4 + l.s.0, h2 + 4 + l.s.1)).unwrap_or((0, 0))
+        }
+      };
+      let pbytes: [u8; 24] = { let mut e = [0u8; 24]; e[0] = 163; e[1] = 48; e[16] = 1; e };
+      let mut pos = s0;
+      while pos + 24 <= s1 {
+        for (nm, delta) in [("p-1", -1i32), ("p", 0), ("p+1", 1)] {
+          let mut c = b.clone();
+          let mut e = pbytes;
+          e[0] = (e[0] as i32 + delta) as u8;
+          c[pos..pos + 24].copy_from_slice(&e);
+          emit(which, &c, nm, &mut rep, &mut f);
+        }
+        let mut c = b.clone();
+        c[pos + 16] = 2;
+        emit(which, &c, "2^129", &mut rep, &mut f);
+        let mut c = b.clone();
+        c[pos + 23] = 1;
+        emit(which, &c, "high-limb", &mut rep, &mut f);
+        pos += 24;
+      }
+    }
     // trailing bytes
     for extra in [1usize, 4, 24, 64] {
       let mut c = b.clone();
@@ -391,6 +421,56 @@ pub fn crash_sweep(a: &Args) -> Report {
           if guard(|| share_recover(&s_sh).is_ok()).is_panic() {
             c09_panic(&mut rep, "share_recover", &format!("{}", name.split(',').next().unwrap_or("")),
               format!("share_recover panicked on {count} share(s) with {name}"), json!({"variant": name, "count": count, "bytes": c}));
+          }
+        }
+      }
+    }
+  }
+  // sets that reach interpolation with a degenerate coordinate: x = 0, x = p-1, y = 0, repeated x
+  for t in [1u32, 2, 3] {
+    let msg = vec![0x33u8; 32];
+    let honest: Vec<Vec<u8>> = (0..(t as usize + 1))
+      .filter_map(|_| Commune::new(t, msg.clone(), vec![0x44u8; 32], None).share().ok().map(|s| s.to_bytes()))
+      .collect();
+    if honest.len() < t as usize + 1 {
+      continue;
+    }
+    let l = layout(&honest[0]).unwrap();
+    let pm1: [u8; 24] = { let mut e = [0u8; 24]; e[0] = 162; e[1] = 48; e[16] = 1; e };
+    for pos in 0..honest.len() {
+      for (name, coord, val) in [("x=0", 0usize, [0u8; 24]), ("x=p-1", 0, pm1), ("y=0", 24, [0u8; 24]), ("y=p-1", 24, pm1)] {
+        let mut set = honest.clone();
+        set[pos][l.s.0 + coord..l.s.0 + coord + 24].copy_from_slice(&val);
+        let mut variants = vec![(name.to_string(), set.clone())];
+        // and the same x on two shares with different y
+        if coord == 0 && honest.len() >= 2 {
+          let mut s2 = set.clone();
+          let q = (pos + 1) % honest.len();
+          s2[q][l.s.0..l.s.0 + 24].copy_from_slice(&val);
+          variants.push((format!("{name},twice"), s2));
+        }
+        for (vn, set) in variants {
+          rep.evaluations += 3;
+          rep.nontrivial(format!("interp:{t}:{pos}:{vn}"));
+          let a_sh: Vec<adss::Share> = set.iter().filter_map(|b| adss::Share::from_bytes(b)).collect();
+          if guard(|| adss::recover(&a_sh).is_ok()).is_panic() {
+            c09_panic(&mut rep, "adss::recover", &format!("degenerate-coordinate:{vn}"),
+              format!("adss::recover panicked on a collection (t={t}) whose share {pos} has {vn}"), json!({"t": t, "position": pos, "variant": vn, "shares": set}));
+          }
+          let s_sh: Vec<sta_rs::Share> = set.iter().filter_map(|b| sta_rs::Share::from_bytes(b)).collect();
+          if guard(|| share_recover(&s_sh).is_ok()).is_panic() {
+            c09_panic(&mut rep, "share_recover", &format!("degenerate-coordinate:{vn}"),
+              format!("share_recover panicked on a collection (t={t}) whose share {pos} has {vn}"), json!({"t": t, "position": pos, "variant": vn}));
+          }
+          let k_sh: Vec<star_sharks::Share> = set.iter().filter_map(|b| layout(b).and_then(|l| star_sharks::Share::try_from(&b[l.s.0..l.s.1]).ok())).collect();
+          if guard(|| Sharks(t).recover(&k_sh).is_ok()).is_panic() {
+            c09_panic(&mut rep, "Sharks::recover", &format!("degenerate-coordinate:{vn}"),
+              format!("Sharks::recover panicked on a collection (t={t}) whose share {pos} has {vn}"), json!({"t": t, "position": pos, "variant": vn}));
+          }
+          let joined = set.iter().map(|b| BASE64_STANDARD.encode(b)).collect::<Vec<_>>().join("\n");
+          if guard(|| star_wasm::group_shares(&joined, "e")).is_panic() {
+            c09_panic(&mut rep, "star_wasm::group_shares", &format!("degenerate-coordinate:{vn}"),
+              format!("group_shares panicked on a collection (t={t}) whose share {pos} has {vn}"), json!({"t": t, "position": pos, "variant": vn}));
           }
         }
       }
